@@ -49,6 +49,8 @@ def build_node(env, symbolic=('pf', 'pi', 'pk')):
         pstr = Parameter('string', StringType(0, 3), readonly=False, default='')
         ps = Parameter('struct', StructOf(x=FloatRange(-10, 10), n=IntRange(0, 5), optional=['n']), readonly=False,
                        default={'x': 0, 'n': 0})
+        ps2 = Parameter('struct without optional members', StructOf(x=FloatRange(-10, 10), n=IntRange(0, 5), optional=[]),
+                        readonly=False, default={'x': 0, 'n': 0})
         pa = Parameter('array', ArrayOf(IntRange(0, 9), 0, 3), readonly=False, default=[])
         ro = Parameter('readonly', FloatRange(), default=1.5)
         pc = Parameter('constant', FloatRange(), constant=2.5)
@@ -83,6 +85,12 @@ def build_node(env, symbolic=('pf', 'pi', 'pk')):
             log.append(('cmds', x, n))
             return n
 
+        @Command(StructOf(x=FloatRange(0, 10), n=IntRange(0, 5)), result=IntRange())
+        def cmds2(self, x, n):
+            """struct argument, no optional members"""
+            log.append(('cmds2', x, n))
+            return n
+
         @Command(FloatRange(0, 10), result=FloatRange(0, 10))
         def cmd1(self, v):
             """scalar argument"""
@@ -94,7 +102,7 @@ def build_node(env, symbolic=('pf', 'pi', 'pk')):
             """unexported"""
             log.append(('hiddencmd',))
 
-    for pname in ('pf', 'pi', 'pe', 'pb', 'pstr', 'ps', 'pa', 'hidden', 'cust', 'target', 'target_min', 'target_max',
+    for pname in ('pf', 'pi', 'pe', 'pb', 'pstr', 'ps', 'ps2', 'pa', 'hidden', 'cust', 'target', 'target_min', 'target_max',
                   'x', 'x_limits', 'pk', 'ro', 'pc'):
         def w(self, value, pname=pname):
             log.append((pname, value))
@@ -142,6 +150,10 @@ REQS = {
     'ps-only-n': ('change', 'm:_ps', ['dict', {'n': 'int'}], PAYLOAD_ERRORS),
     'ps-unknown': ('change', 'm:_ps', ['dict', {'x': 'float', 'zz': 'int'}], PAYLOAD_ERRORS),
     'ps-str': ('change', 'm:_ps', 'strab', PAYLOAD_ERRORS),
+    'ps2-full': ('change', 'm:_ps2', ['dict', {'x': 'float', 'n': 'int'}], 'driver:ps2'),
+    'ps2-partial': ('change', 'm:_ps2', ['dict', {'x': 'float'}], PAYLOAD_ERRORS),
+    'cmds2': ('do', 'm:_cmds2', ['dict', {'x': 'float', 'n': 'int'}], 'driver:cmds2'),
+    'cmds2-partial': ('do', 'm:_cmds2', ['dict', {'x': 'float'}], PAYLOAD_ERRORS),
     'pa-ok': ('change', 'm:_pa', ['list', ['int', 'int']], 'driver:pa'),
     'pa-long': ('change', 'm:_pa', ['list', ['int', 'int', 'int', 'int']], PAYLOAD_ERRORS),
     'pa-str': ('change', 'm:_pa', 'strab', PAYLOAD_ERRORS),
@@ -303,6 +315,13 @@ def judge_value(env, K, name, target, cand, entry, before, after, mod, spec):
         v = entry[1]
         env.check(M.And(-1000 <= v[0], v[1] <= 1000), K + '/out-of-datainfo-value-reached-driver')
         env.check(v[0] <= v[1], K + '/inverted-limits-reached-driver')
+        return
+    if target == 'ps2':
+        v = entry[1]
+        env.check(isinstance(v, dict) and set(v) == {'x', 'n'}, K + '/partial-struct-reached-driver')
+        return
+    if target == 'cmds2':
+        env.check(M.And(0 <= entry[1], entry[1] <= 10, 0 <= entry[2], entry[2] <= 5), K + '/out-of-datainfo-argument-reached-driver')
         return
     if target == 'ps':
         v = entry[1]
